@@ -63,6 +63,10 @@ def scan_assumptions(text):
             if kw in s:
                 res.append('%s: %s' % (kw.strip('( '), s[:160]))
                 break
+        else:
+            # an abstract trait proof fn is a law ASSUMED of every implementor the proof cannot see (the user's Types, a generic reader/writer)
+            if re.search(r'\bproof fn law_\w+', s) and '{' not in s:
+                res.append('trait law (assumed of generic implementors): %s' % s[:160])
     return res
 
 
